@@ -2,7 +2,7 @@ SPECIFICATION Spec
 CONSTANTS
   Elems <- PoolBranchT
   MaxLit = 2
-  Depth = 3
+  Depth = 2
   NLits = 1
   Steps = {"with", "without"}
 INVARIANTS TypeOK Laws
